@@ -133,9 +133,9 @@ Section Proofs.
   (* Step preserves every invariant of the core that evaluations preserve and that does not mention the counter,
      and the counter invariant when the algorithm does not recompute the counter *)
   (* Step and the counter / the evaluation monitor *)
-  Lemma step_core_inv (P : sys -> Prop)
+  Lemma step_core_prog (P : sys -> Prop)
         (Hcore : forall s s', core s' = core s -> P s -> P s')
-        (Hobj : forall s x, P s -> P (fst (objective N inf (a_nested N C I A) s x)))
+        (Hprog : forall s c i, P s -> P (fst (run_prog inf (a_nested N C I A) s (a_step N C I A s c i))))
         (Hfix : forall s0 s1 c, P s1 -> P (set_fcalls N s1 (a_fix_counter N C I A s0 s1 c))) :
     forall s c i, P s -> P (fst (fst (step N inf C I A s c i))).
   Proof.
@@ -147,7 +147,7 @@ Section Proofs.
     { subst pre. destruct (stepmon N (fst sc)); auto. apply (Hcore (fst sc)); auto. }
     destruct (snd pre) eqn:Hm; try exact H2.
     set (r := run_prog inf (a_nested N C I A) (fst pre) (a_step N C I A (fst pre) (snd sc) i)).
-    assert (H3 : P (fst r)) by (apply run_prog_inv; auto).
+    assert (H3 : P (fst r)) by (apply Hprog; auto).
     set (s2' := set_fcalls N (fst r) (a_fix_counter N C I A (fst pre) (fst r) (fst (snd r)))).
     assert (H4 : P s2') by (apply Hfix; exact H3).
     set (s3 := set_stepmon N s2' (stepmon N s2' ++ snd (snd r))).
@@ -160,6 +160,33 @@ Section Proofs.
     assert (H8 : P (fst fc)).
     { subst fc. destruct (snd t1); auto; apply (Hcore (fst t1)); auto; reflexivity. }
     apply (Hcore (fst fc)); [reflexivity|exact H8].
+  Qed.
+
+  Lemma step_core_inv (P : sys -> Prop)
+        (Hcore : forall s s', core s' = core s -> P s -> P s')
+        (Hobj : forall s x, P s -> P (fst (objective N inf (a_nested N C I A) s x)))
+        (Hfix : forall s0 s1 c, P s1 -> P (set_fcalls N s1 (a_fix_counter N C I A s0 s1 c))) :
+    forall s c i, P s -> P (fst (fst (step N inf C I A s c i))).
+  Proof.
+    apply step_core_prog; auto. intros s c i H. apply run_prog_inv; auto.
+  Qed.
+
+  (* an invariant of the call log that the algorithm's program preserves holds after every operation sequence *)
+  Theorem run_calls_prog (Q : list call -> Prop)
+        (Hprog : forall s c i, Q (calls N s) -> Q (calls N (fst (run_prog inf (a_nested N C I A) s (a_step N C I A s c i))))) :
+    forall ops sc, Q (calls N (fst sc)) -> Q (calls N (fst (run N inf C I A sc ops))).
+  Proof.
+    assert (Hcore : forall s s' : sys, core s' = core s -> Q (calls N s) -> Q (calls N s')).
+    { intros s s' Hc H. apply core_eq in Hc as (E & _). now rewrite E. }
+    assert (Hstep : forall s c i, Q (calls N s) -> Q (calls N (fst (fst (step N inf C I A s c i))))).
+    { apply (step_core_prog (fun s => Q (calls N s))); auto. }
+    assert (Hsolve : forall fuel s c is dflt, Q (calls N s) -> Q (calls N (fst (fst (fst (solve N inf C I A fuel s c is dflt)))))).
+    { induction fuel as [|f IH]; intros s c is dflt H; simpl; auto.
+      destruct (snd (step N inf C I A s c (hd dflt is))) eqn:Hm; simpl; auto. }
+    unfold run. induction ops as [|o ops IH]; intros sc H; simpl; auto.
+    apply IH. destruct sc as [s c]. cbn [fst] in H.
+    destruct o; cbn [apply fst snd fin finalize]; auto.
+    all: try (destruct (a_cons_finalizes N C I A); exact H).
   Qed.
 
   Lemma step_calls_inv (Q : list call -> Prop)
@@ -296,3 +323,106 @@ Section Proofs.
     unfold Inv_box, Inv_cnt, Inv_emon, Inv_cons. simpl. repeat split; auto. exists []. reflexivity.
   Qed.
 End Proofs.
+
+(* ---------- invariants relating the system and the algorithm state ---------- *)
+Section Joint.
+  Variable N : Num.
+  Variable inf : T N.
+  Variables C I : Type.
+  Variable A : algo N C I.
+  Notation sys := (sys N).
+
+  Variable P : sys -> C -> Prop.
+  Variable ok_in : I -> Prop.                      (* well-formed oracle inputs (e.g. one trial per member, no re-decoration) *)
+  Hypothesis Hcalls : forall s s' c, calls N s' = calls N s -> stepmon N s' = stepmon N s -> P s c -> P s' c.
+  Hypothesis Hdeco : forall s c i, ok_in i -> P s c -> P s (a_decorate N C I A s c i).
+  Hypothesis Hstep : forall s c i, ok_in i -> P s c ->
+    let r := run_prog inf (a_nested N C I A) s (a_step N C I A s c i) in
+    P (set_stepmon N (fst r) (stepmon N (fst r) ++ snd (snd r))) (fst (snd r)).
+  Hypothesis Hfin : forall s c, P s c ->
+    P (set_stepmon N s (stepmon N s ++ snd (a_finalize N C I A s c))) (fst (a_finalize N C I A s c)).
+
+  Lemma P_frame s s' c : calls N s' = calls N s -> stepmon N s' = stepmon N s -> P s c -> P s' c.
+  Proof. apply Hcalls. Qed.
+
+  Lemma finalize_joint s c : P s c -> P (fst (finalize N C I A s c)) (snd (finalize N C I A s c)).
+  Proof.
+    intros H. unfold finalize. cbn [fst snd].
+    apply (P_frame (set_stepmon N s (stepmon N s ++ snd (a_finalize N C I A s c)))); try reflexivity.
+    apply Hfin. exact H.
+  Qed.
+
+  Theorem step_joint s c i : ok_in i -> P s c ->
+    P (fst (fst (step N inf C I A s c i))) (snd (fst (step N inf C I A s c i))).
+  Proof.
+    intros Hi H. unfold step. cbv zeta.
+    set (sc := bootstrap N C I A s c i).
+    assert (H1 : P (fst sc) (snd sc)).
+    { subst sc. unfold bootstrap. destruct (live N s); [exact H|]. cbn [fst snd].
+      destruct (box N s).
+      - apply (P_frame s); try reflexivity. apply Hdeco; auto.
+      - apply (P_frame s); try reflexivity. exact H. }
+    set (pre := match stepmon N (fst sc) with [] => (fst sc, MNone) | _ => terminated N C I A (fst sc) (snd sc) end).
+    assert (H2 : P (fst pre) (snd sc)).
+    { subst pre. destruct (stepmon N (fst sc)); auto. apply (P_frame (fst sc)); auto; reflexivity. }
+    destruct (snd pre) eqn:Hm; try exact H2.
+    set (r := run_prog inf (a_nested N C I A) (fst pre) (a_step N C I A (fst pre) (snd sc) i)).
+    pose proof (Hstep (fst pre) (snd sc) i Hi H2) as H3. cbv zeta in H3. fold r in H3.
+    set (s2' := set_fcalls N (fst r) (a_fix_counter N C I A (fst pre) (fst r) (fst (snd r)))).
+    set (s3 := set_stepmon N s2' (stepmon N s2' ++ snd (snd r))).
+    assert (H5 : P s3 (fst (snd r))) by (eapply P_frame; [| |exact H3]; reflexivity).
+    set (s4 := if has_cb N s3 then set_cblog N s3 (cblog N s3 ++ [fst (a_best N C I A (fst (snd r)))]) else s3).
+    assert (H6 : P s4 (fst (snd r))).
+    { subst s4. destruct (has_cb N s3); [|exact H5]. eapply P_frame; [| |exact H5]; reflexivity. }
+    set (t1 := terminated N C I A s4 (fst (snd r))).
+    assert (H7 : P (fst t1) (fst (snd r))) by (eapply P_frame; [| |exact H6]; reflexivity).
+    set (fc := match snd t1 with MNone => (fst t1, fst (snd r)) | _ => finalize N C I A (fst t1) (fst (snd r)) end).
+    assert (H8 : P (fst fc) (snd fc)).
+    { subst fc. destruct (snd t1); auto; apply finalize_joint; exact H7. }
+    cbn [fst snd]. eapply P_frame; [| |exact H8]; reflexivity.
+  Qed.
+
+  Lemma solve_joint : forall fuel s c is dflt, Forall ok_in is -> ok_in dflt -> P s c ->
+    let r := solve N inf C I A fuel s c is dflt in P (fst (fst (fst r))) (snd (fst (fst r))).
+  Proof.
+    induction fuel as [|f IH]; intros s c is dflt His Hd H; cbv zeta; simpl; auto.
+    assert (Hi : ok_in (hd dflt is)) by (destruct is; simpl; auto; inversion His; auto).
+    pose proof (step_joint s c (hd dflt is) Hi H) as K.
+    destruct (snd (step N inf C I A s c (hd dflt is))) eqn:Hm; simpl; auto.
+    apply IH; auto. destruct is; simpl; auto. inversion His; auto.
+  Qed.
+
+  (* operation sequences that never install a population after construction and only use well-formed oracle inputs *)
+  Definition clean_op (o : op N I) : Prop :=
+    match o with
+    | OSetPopulation _ => False
+    | OSetStepMonitor _ => False
+    | OStep _ i => ok_in i
+    | OSolve _ is d => Forall ok_in is /\ ok_in d
+    | _ => True
+    end.
+
+  Local Opaque solve step.
+  Theorem apply_joint sc o : clean_op o -> P (fst sc) (snd sc) ->
+    let r := apply N inf C I A sc o in P (fst (fst r)) (snd (fst r)).
+  Proof.
+    destruct sc as [s c]. intros Hc H. cbn [fst snd] in H. cbv zeta.
+    destruct o; cbn [apply fst snd fin]; try contradiction;
+      try (eapply P_frame; [| |apply finalize_joint; exact H]; reflexivity);
+      try (eapply P_frame; [| |exact H]; reflexivity).
+    - (* SetConstraints *) destruct (a_cons_finalizes N C I A).
+      + eapply P_frame; [| |apply finalize_joint; exact H]; reflexivity.
+      + eapply P_frame; [| |exact H]; reflexivity.
+    - (* Step *) apply step_joint; [exact Hc|]. eapply P_frame; [| |exact H]; reflexivity.
+    - (* Solve *) destruct Hc as [Hc1 Hc2]. apply solve_joint; auto. eapply P_frame; [| |exact H]; reflexivity.
+  Qed.
+  Local Transparent solve step.
+
+  Theorem run_joint : forall ops sc, Forall clean_op ops -> P (fst sc) (snd sc) ->
+    P (fst (run N inf C I A sc ops)) (snd (run N inf C I A sc ops)).
+  Proof.
+    unfold run. induction ops as [|o ops IH]; intros sc Hc H; simpl; auto.
+    inversion Hc as [|? ? Ho Hops]; subst. apply IH; auto. apply apply_joint; auto.
+  Qed.
+End Joint.
+
